@@ -10,10 +10,27 @@
 
 #define SENTINEL EBADF
 
+/* `G<spec>`: the same node, but a string is given its value through json_object_set_string_len on a
+ * shorter string, so that it is held in the separately allocated representation (negative len) */
 static struct json_object *build(const char *txt)
 {
 	const char *p = txt;
-	return jt_build(&p);
+	int grown = 0;
+	if (*p == 'G')
+	{
+		grown = 1;
+		p++;
+	}
+	struct json_object *o = jt_build(&p);
+	if (grown && o && json_object_get_type(o) == json_type_string)
+	{
+		int n = json_object_get_string_len(o);
+		struct json_object *g = json_object_new_string_len("", 0);
+		json_object_set_string_len(g, json_object_get_string(o), n);
+		json_object_put(o);
+		o = g;
+	}
+	return o;
 }
 
 static uint64_t dbits(double d)
